@@ -293,9 +293,21 @@ static void *dequeue(thread_pool_t *interface)
 			if (out != NULL)
 				break;
 
+			/*
+			 * If a worker failed, the remaining workers shut down
+			 * and whatever is still queued is never completed.
+			 * Report "nothing more to get" instead of waiting for
+			 * a ticket that will never show up.
+			 */
+			if (pool->status != 0)
+				break;
+
 			pthread_cond_wait(&pool->done_cond, &pool->mtx);
 		}
 		pthread_mutex_unlock(&pool->mtx);
+
+		if (out == NULL)
+			return NULL;
 	}
 
 	ptr = out->data;
